@@ -59,15 +59,16 @@ impl Monitor for C13 {
             ("restarts_after_noop_checked", tier.pick(3_000, 60_000)),
             ("checked_under_lazy_policy", tier.pick(5_000, 100_000)),
             ("checked_with_bytes_possibly_buffered", tier.pick(5_000, 100_000)),
+            ("noop_shapes_issued_on_an_exactly_full_wal_file", tier.pick(100, 2_000)),
         ]
     }
     fn rule(&self) -> String {
-        "case = one generated history under any of 6 persist policies with rejected / no-op call shapes inserted at random points (8 shapes, on existing and non-existing queues); around each such call: (half of the time) persist(Flush) to drain buffers, snapshot + per-file content hash of the directory, the call, (if drained) a trailing persist(Flush), then: the syscall trace of the call itself is EMPTY (no write, no fsync, no open, no seek) and the trailing flush writes nothing, snapshot, disk_used_bytes and directory content unchanged, wal_bytes_written == 0; with probability 1/3 an immediate restart must also reproduce the pre-call snapshot; evaluation = one such call; distinct_nontrivial = distinct (shape, policy, pre-call state digest)".into()
+        "case = one generated history under any of 6 persist policies with rejected / no-op call shapes inserted at random points and whenever the write cursor is within 48 bytes of the end of the WAL file, in particular when the file is full to its last byte (8 shapes, on existing and non-existing queues); around each such call: (half of the time) persist(Flush) to drain buffers, snapshot + per-file content hash of the directory, the call, (if drained) a trailing persist(Flush), then: the syscall trace of the call itself is EMPTY (no write, no fsync, no open, no seek) and the trailing flush writes nothing, snapshot, disk_used_bytes and directory content unchanged, wal_bytes_written == 0; with probability 1/3 an immediate restart must also reproduce the pre-call snapshot; evaluation = one such call; distinct_nontrivial = distinct (shape, policy, pre-call state digest)".into()
     }
     fn run_case(&self, ctx: &Ctx, case: u64, acc: &mut Acc) {
         let parts = ctx.case_seed(case);
         let mut rng = Rng::from_parts(&parts);
-        let profile = *rng.pick(&[Profile::Mixed, Profile::Mixed, Profile::Gc, Profile::Dense, Profile::Delete, Profile::Idle, Profile::BigName]);
+        let profile = *rng.pick(&[Profile::Mixed, Profile::Mixed, Profile::Gc, Profile::Dense, Profile::Delete, Profile::Idle, Profile::BigName, Profile::Align, Profile::Align, Profile::Align]);
         let policy = *rng.pick(&ALL_POLICIES);
         let nq = rng.usize(1, 4);
         let nops = rng.usize(40, 120);
@@ -83,8 +84,21 @@ impl Monitor for C13 {
         d.gen.cfg.bad_pm = 0;
         d.gen.cfg.restart_pm = 20;
         let mut sampled = false;
+        let mut forced = 0u32;
         for _ in 0..nops {
-            if !rng.chance(1, 4) {
+            // a WAL file filled to its very last byte (or nearly): the next frame, whatever it
+            // is, rolls over - the place where a no-op that "prepares" a write leaves a trace
+            let rem_in_file = if d.cursor > 0 && policy.always() { (d.file_size - d.cursor % d.file_size) % d.file_size } else { u64::MAX };
+            // at most four forced no-ops in a row (they do not move the cursor)
+            let near_file_end = rem_in_file < 48 && forced < 4;
+            forced = if rem_in_file < 48 { forced + 1 } else { 0 };
+            if rem_in_file < 48 && !near_file_end && rng.chance(1, 2) {
+                forced = 0;
+            }
+            if near_file_end {
+                acc.count(if rem_in_file == 0 { "noop_shapes_issued_on_an_exactly_full_wal_file" } else { "noop_shapes_issued_within_48_bytes_of_the_file_end" });
+            }
+            if !near_file_end && !rng.chance(1, 4) {
                 let st = d.step();
                 if st.outcome.is_io_err() {
                     acc.inconclusive(format!("I/O error from a live call: {:?}", st.outcome));
